@@ -25,3 +25,8 @@ import (
 func VerifWriteTarToDir(r io.Reader, destDir string) error {
 	return writeTarToDir(r, destDir)
 }
+
+// VerifWriteFirstFileAs exposes writeFirstFileAs to the verification harness.
+func VerifWriteFirstFileAs(r io.Reader, file string) error {
+	return writeFirstFileAs(r, file)
+}
